@@ -254,7 +254,29 @@ func (r *RProgram) cmpField(path string, f *RField, want *Value, got *Tree, elem
 			return &Diff{path, f, "not a list", "not a list"}
 		}
 		if len(gl) != len(want.List) {
-			return &Diff{path, f, "element count", fmt.Sprintf("%d elements, expected %d", len(gl), len(want.List))}
+			cls := "element count"
+			switch {
+			case len(gl) == 0:
+				cls = "element count (no element decoded)"
+			case f.Kind == KDynStr || f.Kind == KFixStr:
+				// are exactly the empty elements missing?
+				var nonEmpty []string
+				for _, w := range want.List {
+					if w.Str != "" {
+						nonEmpty = append(nonEmpty, w.Str)
+					}
+				}
+				same := len(nonEmpty) == len(gl)
+				for i := 0; same && i < len(gl); i++ {
+					if gl[i] == nil || gl[i].Kind != 's' || gl[i].Str != nonEmpty[i] {
+						same = false
+					}
+				}
+				if same {
+					cls = "element count (empty elements dropped)"
+				}
+			}
+			return &Diff{path, f, cls, fmt.Sprintf("%d elements, expected %d", len(gl), len(want.List))}
 		}
 		for i := range gl {
 			if d := r.cmpField(fmt.Sprintf("%s[%d]", path, i), f, want.List[i], gl[i], true); d != nil {
